@@ -12,14 +12,15 @@ def dataSum : List Step → Nat
 
 /-- the next operation on the same wrapped connection: it inherits the bytes still available and
     whatever deadline the previous operation left behind -/
-def Op.next (prev : Op) (want : Nat) (cancelled : Bool) : Op :=
-  { Op.new want prev.avail cancelled with deadlineOld := prev.deadlineOld }
+def Op.next (prev : Op) (want : Nat) (cancelled : Bool) (stream : Bool := false) : Op :=
+  { Op.new want prev.avail cancelled stream with deadlineOld := prev.deadlineOld }
 
 /-- one operation of a session: slice length, whether its context is already cancelled, its schedule -/
 structure Call where
   want : Nat
   cancelled : Bool
   sched : List Step
+  stream : Bool := false
 
 /-- run consecutive operations; each starts when the previous one has returned (operations of one
     direction are serialised by the wrapper's mutex).  Returns the final state of every operation. -/
@@ -29,12 +30,12 @@ def session (first : Op) : List Call → List Op
     let o := run first c.sched
     o :: (match cs with
           | [] => []
-          | c' :: _ => session (Op.next o c'.want c'.cancelled) cs)
+          | c' :: _ => session (Op.next o c'.want c'.cancelled c'.stream) cs)
 
 /-- the first operation of a session on a connection holding `avail` bytes and no deadline -/
 def start (avail : Nat) : List Call → Op
   | [] => Op.new 0 avail false
-  | c :: _ => Op.new c.want avail c.cancelled
+  | c :: _ => Op.new c.want avail c.cancelled c.stream
 
 def reported (os : List Op) : Nat := (os.map (fun o => match o.result with | some (n, _) => n | none => 0)).sum
 def offered (cs : List Call) : Nat := (cs.map (fun c => dataSum c.sched)).sum
